@@ -19,7 +19,7 @@
          "H:" are failures of the harness' own obligations (a derivation that does not verify),
          clauses starting with "R:" are refinement-mode differences (the code did something the
          properties allow but the specification's algorithm does not: "spec drift").           *)
-EXTENDS MolGraph, Refine, Serialize, Grammar
+EXTENDS MolGraph, Refine, Serialize, Grammar, MolV2000
 
 VARIABLES objs,     \* object id -> graph record (MolGraph)
           cls,      \* object id -> class id; equal class = verified same molecule (identity level)
@@ -32,15 +32,16 @@ VARIABLES objs,     \* object id -> graph record (MolGraph)
           rootPart, \* class id -> [root atom -> partition class] from the first canonicalization
           sers,     \* set of <<class id, string, graph>> of all serializations so far
           strs,     \* string id -> [s, cl]  strings the session knows (serialized, respelled, typed in)
+          mols,     \* object id -> the molecule the specification decodes from the text the object was read from
           results,  \* key -> value : generic registry "same input, same result" (C14, C16)
           viol      \* set of violated clause names
-vars == <<objs, cls, root, prov, strOf, canonOf, rootPart, sers, strs, results, viol>>
+vars == <<objs, cls, root, prov, strOf, canonOf, rootPart, sers, strs, mols, results, viol>>
 
 CONSTANTS RLimit,    \* refinement mode (recompute with the spec's algorithm) for graphs up to this size
           BFLimit    \* brute-force isomorphism / automorphism up to this size
 
 Init == /\ objs = <<>> /\ cls = <<>> /\ root = <<>> /\ prov = <<>> /\ strOf = <<>> /\ canonOf = <<>> /\ rootPart = <<>>
-        /\ sers = {} /\ strs = <<>> /\ results = <<>> /\ viol = {}
+        /\ sers = {} /\ strs = <<>> /\ mols = <<>> /\ results = <<>> /\ viol = {}
 
 \* ------------------------------------------------------------------ reading event records
 MkGraph(r) ==
@@ -135,7 +136,7 @@ Input(e) ==
      /\ root' = root @@ (e.obj :> [a \in Atoms(G) |-> a])
      /\ prov' = prov @@ (e.obj :> [cl |-> e.obj, g |-> G, rt |-> [a \in Atoms(G) |-> a], pstr |-> ""])
      /\ viol' = viol \cup (IF WellFormed(G) THEN {} ELSE {"H:malformed-input"})
-  /\ UNCHANGED <<strOf, canonOf, rootPart, sers, strs, results>>
+  /\ UNCHANGED <<strOf, canonOf, rootPart, sers, strs, mols, results>>
 
 \* the user presents another description of a known molecule.  kind "relabel": atoms renumbered
 \* (perm), listing order / bond orientation changed, all data carried along.  kind "nonidentity":
@@ -155,7 +156,7 @@ Derive(e) ==
                                      pstr |-> IF good /\ (\A i \in 1..G.n : f[i] = i) THEN prov[e.from].pstr ELSE "",
                                      rt |-> IF good THEN [b \in Atoms(H) |-> root[e.from][InvPerm(f, G.n)[b]]] ELSE [b \in Atoms(H) |-> b]])
         /\ viol' = viol \cup (IF good THEN {} ELSE {"H:derivation-does-not-verify"})
-  /\ UNCHANGED <<strOf, canonOf, rootPart, sers, strs, results>>
+  /\ UNCHANGED <<strOf, canonOf, rootPart, sers, strs, mols, results>>
 
 \* the user edits an object in place (adds / removes atoms or bonds, changes attributes): from now on the
 \* object is a new molecule; whatever the library returned for the old value says nothing about it
@@ -167,7 +168,7 @@ Mutate(e) ==
      /\ root' = [root EXCEPT ![e.obj] = [a \in Atoms(G) |-> a]]
      /\ prov' = [prov EXCEPT ![e.obj] = [cl |-> e.newcls, g |-> G, rt |-> [a \in Atoms(G) |-> a], pstr |-> ""]]
      /\ viol' = viol \cup (IF WellFormed(G) /\ e.newcls \notin {cls[k] : k \in DOMAIN cls} THEN {} ELSE {"H:malformed-input"})
-  /\ UNCHANGED <<strOf, canonOf, rootPart, sers, strs, results>>
+  /\ UNCHANGED <<strOf, canonOf, rootPart, sers, strs, mols, results>>
 
 \* two objects are stated to be the same molecule for a reason the specification verified elsewhere
 \* (e.g. both were read from texts whose decoded molecules agree): classes are merged
@@ -203,7 +204,7 @@ SameMol(e) ==
         /\ prov' = IF merge THEN [k \in DOMAIN prov |-> IF prov[k].cl = cb
                                    THEN [prov[k] EXCEPT !.cl = ca, !.rt = [x \in DOMAIN prov[k].rt |-> Tr(prov[k].rt[x])]]
                                    ELSE prov[k]] ELSE prov
-  /\ UNCHANGED <<objs, strs, results>>
+  /\ UNCHANGED <<objs, strs, mols, results>>
 
 \* --- canonicalize_molecule(arg) -> ret
 CanonClauses(e, G, R) ==
@@ -248,7 +249,7 @@ Canonicalize(e) ==
         /\ canonOf' = IF Known(canonOf, c) THEN canonOf ELSE canonOf @@ (c :> Summary(R))
         /\ rootPart' = IF Known(rootPart, c) \/ ~traceable THEN rootPart
                        ELSE rootPart @@ (c :> [x \in Atoms(G) |-> R.part[sigma[InvPerm(root[e.arg], G.n)[x]]]])
-  /\ UNCHANGED <<strOf, sers, strs, results>>
+  /\ UNCHANGED <<strOf, sers, strs, mols, results>>
 
 \* --- an automorphism of an object, constructed by the driver and verified here (C13 beyond brute force)
 Automorphism(e) ==
@@ -257,7 +258,7 @@ Automorphism(e) ==
      viol' = viol \cup (IF ~IsColourIso(G, G, f) THEN {"H:claimed-automorphism-does-not-verify"}
                         ELSE IF \E a \in Atoms(G) : G.part[f[a]] # G.part[a]
                              THEN {"C13:symmetric-atoms-in-different-classes"} ELSE {})
-  /\ UNCHANGED <<objs, cls, root, prov, strOf, canonOf, rootPart, sers, strs, results>>
+  /\ UNCHANGED <<objs, cls, root, prov, strOf, canonOf, rootPart, sers, strs, mols, results>>
 
 \* --- serialize_molecule(arg) -> string
 SerClauses(e, G) ==
@@ -290,13 +291,13 @@ Serialize(e) ==
      /\ viol' = viol \cup SerClauses(e, G)
      /\ strOf' = IF Known(strOf, c) THEN strOf ELSE strOf @@ (c :> e.ret)
      /\ sers' = sers \cup {<<c, e.ret, prov[e.arg].g>>}
-  /\ UNCHANGED <<objs, cls, root, prov, canonOf, rootPart, strs, results>>
+  /\ UNCHANGED <<objs, cls, root, prov, canonOf, rootPart, strs, mols, results>>
 
 \* --- a library call ended with an exception where the properties demand a normal return (C15 and others)
 Raised(e) ==
   /\ e.op = "raised"
   /\ viol' = viol \cup {e.clause}
-  /\ UNCHANGED <<objs, cls, root, prov, strOf, canonOf, rootPart, sers, strs, results>>
+  /\ UNCHANGED <<objs, cls, root, prov, strOf, canonOf, rootPart, sers, strs, mols, results>>
 
 \* --- graph_from_tucan(s) -> ret | exception
 ParseClauses(e, D) ==
@@ -331,27 +332,27 @@ Parse(e) ==
                 /\ root' = root @@ (e.ret :> rt)
                 /\ prov' = prov @@ (e.ret :> [cl |-> pc, g |-> P, rt |-> rt, pstr |-> IF linked THEN e.s ELSE ""])
         ELSE UNCHANGED <<objs, cls, root, prov>>
-  /\ UNCHANGED <<strOf, canonOf, rootPart, sers, strs, results>>
+  /\ UNCHANGED <<strOf, canonOf, rootPart, sers, strs, mols, results>>
 
 \* --- C11: the session learns a string / a respelling of a known string (verified on the denotations)
 StringIn(e) ==
   /\ e.op = "string" /\ ~Known(strs, e.sid)
   /\ strs' = strs @@ (e.sid :> [s |-> e.s, cl |-> 1000000 + e.sid])
-  /\ UNCHANGED <<objs, cls, root, prov, strOf, canonOf, rootPart, sers, results, viol>>
+  /\ UNCHANGED <<objs, cls, root, prov, strOf, canonOf, rootPart, sers, mols, results, viol>>
 Respell(e) ==
   /\ e.op = "respell" /\ ~Known(strs, e.sid) /\ Known(strs, e.from)
   /\ LET D1 == Denote(strs[e.from].s)  D2 == Denote(e.s)
          good == D1.acc /\ D2.acc /\ D1.n = D2.n /\ IsColourIso(DenoteGraph(D1), DenoteGraph(D2), PermOf(e.imap))
      IN /\ strs' = strs @@ (e.sid :> [s |-> e.s, cl |-> IF good THEN strs[e.from].cl ELSE 1000000 + e.sid])
         /\ viol' = viol \cup (IF good THEN {} ELSE {"H:respelling-does-not-preserve-the-molecule"})
-  /\ UNCHANGED <<objs, cls, root, prov, strOf, canonOf, rootPart, sers, results>>
+  /\ UNCHANGED <<objs, cls, root, prov, strOf, canonOf, rootPart, sers, mols, results>>
 
 \* --- generic registry: the same operation on the same input returned something else (C14, C16)
 Result(e) ==
   /\ e.op = "result"
   /\ viol' = viol \cup (IF Known(results, e.key) /\ results[e.key] # e.val THEN {e.clause} ELSE {})
   /\ results' = IF Known(results, e.key) THEN results ELSE results @@ (e.key :> e.val)
-  /\ UNCHANGED <<objs, cls, root, prov, strOf, canonOf, rootPart, sers, strs>>
+  /\ UNCHANGED <<objs, cls, root, prov, strOf, canonOf, rootPart, sers, strs, mols>>
 
 \* --- permute_molecule(arg, seed) -> ret   (C16)
 PermuteClauses(e, G, R) ==
@@ -377,10 +378,103 @@ Permute(e) ==
                                                        ELSE [b \in Atoms(R) |-> b])
         /\ prov' = prov @@ (e.ret :> [cl |-> IF traceable /\ IsColourIso(G, R, sigma) THEN cls[e.arg] ELSE e.ret, g |-> R, pstr |-> "",
                                      rt |-> IF traceable THEN [b \in Atoms(R) |-> root[e.arg][InvPerm(sigma, G.n)[b]]] ELSE [b \in Atoms(R) |-> b]])
+  /\ UNCHANGED <<strOf, canonOf, rootPart, sers, strs, mols, results>>
+
+\* ------------------------------------------------------------------ molfile texts (C06 - C09)
+\* what the implementation read, in the shape of the decoders' result; coordinates as repr(float)
+ReadAtoms(r) == [i \in 1..r.n |-> [sym |-> r.atoms[i].sym, chg |-> r.atoms[i].c, rad |-> r.atoms[i].r, mass |-> r.atoms[i].m,
+                                   x |-> r.atoms[i].x, y |-> r.atoms[i].y, z |-> r.atoms[i].z_]]
+ReadBonds(r) == {<<r.edges[j][1], r.edges[j][2], r.edges[j][4]>> : j \in 1..Len(r.edges)}
+\* the decoder's atoms with the coordinate literals replaced by what the harness says float(literal) prints as
+Num(fl, lit) == IF lit = "" THEN "0.0" ELSE fl[lit]          \* a blank V2000 coordinate field is zero
+Numeric(D, fl) == [i \in 1..Len(D.atoms) |-> [D.atoms[i] EXCEPT !.x = Num(fl, D.atoms[i].x), !.y = Num(fl, D.atoms[i].y), !.z = Num(fl, D.atoms[i].z)]]
+LiteralsKnown(D, fl) == \A i \in 1..Len(D.atoms) : ({D.atoms[i].x, D.atoms[i].y, D.atoms[i].z} \ {""}) \subseteq DOMAIN fl
+DecodeText(e) == IF e.fmt = "V2000" THEN DecodeV2000(e.lines) ELSE DecodeV3000(e.lines)
+ElementKnown(D) == \A i \in 1..Len(D.atoms) : D.atoms[i].sym \in SymSet
+
+\* graph_from_molfile_text(text) -> obj | exception.   pfx = "C07" (V3000), "C08" (V2000) or "C09" (read-back of a written file)
+ReadClauses(e, D) ==
+  LET pfx == e.pfx IN
+  IF ~D.ok \/ ~ElementKnown(D) THEN {}                  \* not a conformant table: nothing is demanded of the reader
+  ELSE IF Has(e, "exc") THEN {pfx \o ":conformant-file-rejected(" \o e.exc \o ")"}
+  ELSE IF ~LiteralsKnown(D, e.floats) THEN {"H:coordinate-literal-without-numeric-reading"}
+  ELSE LET A == ReadAtoms(e.g)  N == Numeric(D, e.floats) IN
+       (IF Len(A) = Len(N) THEN {} ELSE {pfx \o ":number-of-atoms"})
+       \cup (IF Len(A) = Len(N) /\ \E i \in 1..Len(A) : A[i].sym # N[i].sym THEN {pfx \o ":element-or-atom-order"} ELSE {})
+       \cup (IF Len(A) = Len(N) /\ \E i \in 1..Len(A) : A[i].chg # N[i].chg THEN {pfx \o ":charge"} ELSE {})
+       \cup (IF Len(A) = Len(N) /\ \E i \in 1..Len(A) : A[i].rad # N[i].rad THEN {pfx \o ":radical"} ELSE {})
+       \cup (IF Len(A) = Len(N) /\ \E i \in 1..Len(A) : A[i].mass # N[i].mass THEN {pfx \o ":isotope-mass"} ELSE {})
+       \cup (IF Len(A) = Len(N) /\ \E i \in 1..Len(A) : <<A[i].x, A[i].y, A[i].z>> # <<N[i].x, N[i].y, N[i].z>> THEN {pfx \o ":coordinates"} ELSE {})
+       \cup (IF {<<b[1], b[2]>> : b \in ReadBonds(e.g)} = {<<b[1], b[2]>> : b \in D.bonds} THEN {} ELSE {pfx \o ":bonds"})
+       \cup (IF ReadBonds(e.g) = D.bonds \/ {<<b[1], b[2]>> : b \in ReadBonds(e.g)} # {<<b[1], b[2]>> : b \in D.bonds} THEN {} ELSE {pfx \o ":bond-types"})
+       \* the abstract molecule the text was rendered from, when the driver knows it: the decoder itself is checked too
+       \cup (IF Has(e, "mol") /\ ~(D.atoms = e.mol.atoms /\ D.bonds = {<<e.mol.bonds[j][1], e.mol.bonds[j][2], e.mol.bonds[j][3]>> : j \in 1..Len(e.mol.bonds)})
+               THEN {"H:reference-decoder-disagrees-with-the-rendered-molecule"} ELSE {})
+ReadText(e) ==
+  /\ e.op = "read" /\ NewObj(e.obj)
+  /\ LET D == DecodeText(e) IN
+     /\ viol' = viol \cup ReadClauses(e, D)
+     /\ mols' = mols @@ (e.obj :> D)
+     /\ IF Has(e, "g")
+        THEN LET G == MkGraph(e.g) IN
+             /\ objs' = objs @@ (e.obj :> G) /\ cls' = cls @@ (e.obj :> e.obj)
+             /\ root' = root @@ (e.obj :> [a \in Atoms(G) |-> a])
+             /\ prov' = prov @@ (e.obj :> [cl |-> e.obj, g |-> G, rt |-> [a \in Atoms(G) |-> a], pstr |-> ""])
+        ELSE UNCHANGED <<objs, cls, root, prov>>
   /\ UNCHANGED <<strOf, canonOf, rootPart, sers, strs, results>>
 
+\* two texts state the same molecule at the level TUCAN models (elements, masses, radicals, who is bonded to whom;
+\* atom a of the first is atom perm[a] of the second) -- verified on what the SPECIFICATION decodes from the texts,
+\* whatever the reader made of them.  Coordinates, charges, bond types, indices, keywords, headers may all differ (C06);
+\* with strict = TRUE charges and bond types must agree too (C08: the V2000 and V3000 renderings of one molecule).
+SameText(e) ==
+  /\ e.op = "sametext" /\ Known(mols, e.a) /\ Known(mols, e.b)
+  /\ LET A == mols[e.a]  B == mols[e.b]  f == PermOf(e.perm)
+         n == IF A.ok THEN Len(A.atoms) ELSE 0
+         good == /\ A.ok /\ B.ok /\ Len(B.atoms) = n /\ IsPerm(f, n)
+                 /\ \A i \in 1..n : <<A.atoms[i].sym, A.atoms[i].mass, A.atoms[i].rad>> = <<B.atoms[f[i]].sym, B.atoms[f[i]].mass, B.atoms[f[i]].rad>>
+                 /\ {{f[b[1] + 1], f[b[2] + 1]} : b \in A.bonds} = {{b[1] + 1, b[2] + 1} : b \in B.bonds}
+                 /\ (e.strict => /\ \A i \in 1..n : A.atoms[i].chg = B.atoms[f[i]].chg
+                                  /\ {<<{f[b[1] + 1], f[b[2] + 1]}, b[3]>> : b \in A.bonds} = {<<{b[1] + 1, b[2] + 1}, b[3]>> : b \in B.bonds})
+         both == Known(objs, e.a) /\ Known(objs, e.b)
+         ca == IF both THEN cls[e.a] ELSE 0   cb == IF both THEN cls[e.b] ELSE 0
+         merge == good /\ both /\ ca # cb
+     IN /\ viol' = viol
+             \cup (IF good THEN {} ELSE {"H:texts-do-not-state-the-same-molecule"})
+             \cup (IF merge /\ Known(strOf, ca) /\ Known(strOf, cb) /\ strOf[ca] # strOf[cb]
+                     THEN {e.pfx \o ":same-molecule-different-string"} ELSE {})
+             \* presence-sensitive comparison of what the reader returned for the two spellings (explicit defaults, C07)
+             \cup (IF good /\ both /\ Has(e, "samegraph") /\ e.samegraph
+                      /\ ~(objs[e.a].hasm = objs[e.b].hasm /\ objs[e.a].hasr = objs[e.b].hasr /\ objs[e.a].attr = objs[e.b].attr)
+                     THEN {e.pfx \o ":explicit-default-is-not-the-same-as-omitting-it"} ELSE {})
+        /\ cls' = IF merge THEN [k \in DOMAIN cls |-> IF cls[k] = cb THEN ca ELSE cls[k]] ELSE cls
+        /\ prov' = IF merge THEN [k \in DOMAIN prov |-> IF prov[k].cl = cb THEN [prov[k] EXCEPT !.cl = ca] ELSE prov[k]] ELSE prov
+        /\ strOf' = IF merge /\ ~Known(strOf, ca) /\ Known(strOf, cb) THEN strOf @@ (ca :> strOf[cb]) ELSE strOf
+        /\ sers' = IF merge THEN {<<IF p[1] = cb THEN ca ELSE p[1], p[2], p[3]>> : p \in sers} ELSE sers
+  /\ UNCHANGED <<objs, root, canonOf, rootPart, strs, mols, results>>
+
+\* graph_to_molfile(arg) -> text     (lines without the timestamp line 2)
+WriteClauses(e, G) ==
+  LET D == DecodeV3000(e.lines)  n == G.n IN
+  (IF \A i \in 1..Len(e.lines) : Len(e.lines[i]) + 1 <= 80 THEN {} ELSE {"C09:line-longer-than-80-characters"})
+  \cup (IF ~D.ok THEN {"C09:written-file-is-not-a-well-formed-V3000-table(" \o D.why \o ")"}
+        ELSE (IF Len(D.atoms) = n THEN {} ELSE {"C09:number-of-atoms"})
+          \* atoms in the order in which the graph lists them
+          \cup (IF Len(D.atoms) = n /\ \E i \in 1..n : LET a == G.ord[i] IN
+                     <<D.atoms[i].sym, D.atoms[i].chg, D.atoms[i].rad, D.atoms[i].mass>> # <<G.sym[a], G.chg[a], G.rad[a], G.mass[a]>>
+                  THEN {"C09:atom-attributes-or-order"} ELSE {})
+          \cup (IF Len(D.atoms) = n /\ \E i \in 1..n : <<D.atoms[i].x, D.atoms[i].y, D.atoms[i].z>> # <<e.xyz6[i][1], e.xyz6[i][2], e.xyz6[i][3]>>
+                  THEN {"C09:coordinates-not-to-six-decimals"} ELSE {})
+          \cup (IF Len(D.atoms) = n /\ {<<{G.ord[b[1] + 1], G.ord[b[2] + 1]}, b[3]>> : b \in D.bonds}
+                                      # {<<{e.bonds[j][1] + 1, e.bonds[j][2] + 1}, e.bonds[j][3]>> : j \in 1..Len(e.bonds)}
+                  THEN {"C09:bonds-or-bond-types"} ELSE {}))
+WriteText(e) ==
+  /\ e.op = "write" /\ Known(objs, e.arg)
+  /\ viol' = viol \cup WriteClauses(e, objs[e.arg])
+  /\ UNCHANGED <<objs, cls, root, prov, strOf, canonOf, rootPart, sers, strs, mols, results>>
+
 Step(e) == \/ Input(e) \/ Derive(e) \/ Mutate(e) \/ SameMol(e) \/ Canonicalize(e) \/ Automorphism(e) \/ Serialize(e)
-           \/ Raised(e) \/ Parse(e) \/ StringIn(e) \/ Respell(e) \/ Result(e) \/ Permute(e)
+           \/ Raised(e) \/ Parse(e) \/ ReadText(e) \/ SameText(e) \/ WriteText(e) \/ StringIn(e) \/ Respell(e) \/ Result(e) \/ Permute(e)
 
 \* ------------------------------------------------------------------ the properties, as state predicates
 Clean(prefix) == \A c \in viol : SubSeq(c, 1, Len(prefix)) # prefix
